@@ -66,6 +66,11 @@ func usesValue(v ssa.Value, pred func(ssa.Value) bool) bool {
 			}
 			return false
 		}
+		for _, rv := range newHelperReturns(v) {
+			if walk(rv, d+1) {
+				return true
+			}
+		}
 		in, ok := v.(ssa.Instruction)
 		if !ok {
 			return false
@@ -244,6 +249,12 @@ func appendsFeeding(v ssa.Value) []*ssa.Call {
 				}
 			}
 		}
+		if _, isCall := x.(*ssa.Call); isCall && len(out) > 0 && out[len(out)-1] == x {
+			return
+		}
+		for _, rv := range newHelperReturns(x) {
+			walk(rv)
+		}
 	}
 	walk(v)
 	return out
@@ -259,7 +270,7 @@ func checkSkips(c *Ctx, rule string, fn *ssa.Function, what string, v ssa.Value,
 	c05ParamSubst = map[*ssa.Parameter]ssa.Value{}
 	defer func() { c05ParamSubst = nil }()
 	for depth := 0; depth < 2; depth++ {
-		vals, unk := Origins(v)
+		vals, unk := OriginsNoExpand(v)
 		if unk || len(vals) != 1 {
 			break
 		}
